@@ -23,6 +23,7 @@ import GM.Props.Convert
 import GM.Proof.IndepReset
 import GM.Proof.IndepEnd
 import GM.Props.C09Shift
+import GM.Props.C09Prefix
 
 namespace GM.Props.C09
 open GM GM.Refs
@@ -368,5 +369,26 @@ theorem shift_invariance : type_of% @GM.Props.C09Shift.shift_invariance := @GM.P
     `treeOf` does not depend on its fuel once the fuel is at least the store's length); the Document has no lines.
     An ingredient of C05(b) ("the AST is a tree") as well. -/
 theorem store_acyclic : type_of% @GM.Props.C09Shift.store_acyclic := @GM.Props.C09Shift.store_acyclic
+
+/-- (re-export of `GM.Props.C09Shift.independent_blocks`) the two classes together: `a` empty, or ending with a line feed and free of list / setext / fence triggers -/
+theorem independent_blocks : type_of% @GM.Props.C09Shift.independent_blocks := @GM.Props.C09Shift.independent_blocks
+
+/-- (re-export of `GM.Props.C09Shift.independent_blocks_plain_a`) **C09 first half for a non-empty first part**: `IndependentBlocks a h b` for EVERY `h`, EVERY `b` and every `a` that
+    ends with a line feed and contains none of the bytes `- * + 0-9 = ` ~` (the other provisos — no `[`, no CR, `a` not
+    ending in a raw block — are the statement's own). -/
+theorem independent_blocks_plain_a : type_of% @GM.Props.C09Shift.independent_blocks_plain_a := @GM.Props.C09Shift.independent_blocks_plain_a
+
+/-- (re-export of `GM.Props.C09Shift.prefix_reached_plain`) **Prefix determinism + "closing at the end of the source = closing by a blank line"**, as one statement about two runs
+    of the block-phase model: let `a` end with a line feed, contain none of the bytes `- * + 0-9 = ` ~` (so no list
+    parser, no setext parser, no fenced-code parser is ever triggered; block quotes, paragraphs, ATX headings, `___`,
+    indented code, HTML blocks are allowed), and let the tree of `run a` not end in a raw block. Then the run on
+    `a ++ "\n" ++ "# h\n" ++ "\n" ++ b` passes through a `Start` state behind the heading's blank line whose old part is
+    the final store of `run a` plus the heading (`PrefixReached`). Proved by a simulation of `run a` against the run on the
+    LONGER source (GM.Proof.ShiftSimX*: the shift simulation with a suffix instead of a prefix; the two runs agree while
+    run A has a line, every reader call being shown to stay in front of the line's final line feed), followed, when run A
+    reaches the end of `a`, by the comparison "run A closes every open block" / "run B reads the blank line, on which the
+    first open block does not continue (it is not a raw block: tree criterion `endsInRawBlock`, linked to the open stack by
+    the invariant `TopLast`: the first open block is the Document's last child), and closes them with the same call". -/
+theorem prefix_reached_plain : type_of% @GM.Props.C09Shift.prefix_reached_plain := @GM.Props.C09Shift.prefix_reached_plain
 
 end GM.Props.C09
